@@ -218,8 +218,19 @@ def gen_super(rng, idx, tier):
                 temp=300.0, script=script)
 
 
+def omp_threads(case):
+    """a third of the superposition cases with >= 3 biases run the JOINT configuration with the library's own OpenMP loops, on a
+    number of threads that does not divide the number of biases (the single-bias references stay serial)"""
+    K = len(case["biases"])
+    if K < 3 or case["idx"] % 3 != 0:
+        return None
+    return 2 if K % 2 else (3 if K % 3 else 2)
+
+
 def scen_super(case, members):
-    s = corpus.scenario_header(case["sysm"], tfmode=case["tfmode"], extra="dt 1.0\ntemp %s" % fnum(case["temp"]))
+    members = list(members)
+    omp = omp_threads(case) if len(members) == len(case["biases"]) else None
+    s = corpus.scenario_header(case["sysm"], tfmode=case["tfmode"], extra="dt 1.0\ntemp %s" % fnum(case["temp"]) + ("\nsmp omp" if omp else ""))
     glob = ""
     if case.get("script") and any(case["biases"][j]["kind"] == "script" for j in members):
         s += "forcecb %s %s\n" % (case["script"]["cv"], case["script"]["force"])
@@ -636,7 +647,8 @@ def run(tier, replay):
     def do_super(case):
         wd = os.path.join(c.work, "s%d" % case["idx"])
         K = len(case["biases"])
-        res = {"joint": common.run_esim("plain", scen_super(case, range(K)), wd, "joint", timeout=300)}
+        nt = omp_threads(case)
+        res = {"joint": common.run_esim("plain", scen_super(case, range(K)), wd, "joint", timeout=300, env=({"OMP_NUM_THREADS": str(nt)} if nt else None))}
         for j in range(K):
             res["j%d" % j] = common.run_esim("plain", scen_super(case, [j]), wd, "only%d" % j, timeout=300)
         nb = [j for j in range(K) if case["biases"][j]["kind"] in NONBIASING]
@@ -656,6 +668,7 @@ def run(tier, replay):
             res["r%d" % j] = common.run_esim("plain", scen_mts(case, j)[0], wd, "ref%d" % j, timeout=300)
         return res
 
+    c.bump("joint_runs_on_openmp_threads", sum(1 for case in sup if omp_threads(case)))
     for case, res in zip(sup, common.pmap(do_super, sup)):
         c.count()
         if check_super(c, case, res):
